@@ -50,4 +50,16 @@ def nontrivial(c):
 
 
 def run(r):
+    # protocol part (exploration shared with C19): histories sent to the REAL server create and remove a dependency cycle
+    # and a scope mismatch; after every notification the published circular-dependency / scope-mismatch findings must be
+    # those of a fresh database on the latest contents
+    import os, random
+    import core, C19
+    quick = r.tier == "quick"
+    h1, _ = core.build_harness()
+    stdlib = set(core.tables()["stdlib_modules"])
+    bad, nh = C19.server_history_failures(r, h1, random.Random(r.seed * 29 + 16), int(os.environ.get("VERIF_SERVER_HISTORIES", 8 if quick else 60)), stdlib)
+    for k, b in enumerate(bad[:2]):
+        r.violation(dict({"property": PID, "part": "server histories"}, **b), "srv_%d" % k)
+    r.extra_coverage = {"server_histories": nh}
     return runner.drive_ws(r, sys.modules[__name__])
